@@ -200,6 +200,18 @@ func NewClient(conn io.ReadWriteCloser, o ...ClientOpt) (*Client, error) {
 			return nil, ErrBadVersionString
 		}
 		c.version = version
+
+		// The server may lower the message size; use what it agreed to.
+		if rversion.MSize < c.messageSize {
+			if rversion.MSize <= msgDotLRegistry.largestFixedSize {
+				return nil, &ErrMessageTooLarge{
+					size:  rversion.MSize,
+					msize: msgDotLRegistry.largestFixedSize,
+				}
+			}
+			c.messageSize = rversion.MSize
+			c.payloadSize = roundDown(c.messageSize-msgDotLRegistry.largestFixedSize, 512)
+		}
 		break
 	}
 	return c, nil
